@@ -201,6 +201,26 @@ def corpus():
     return out
 
 
+def second_call_cases():
+    """A helper (one function object) captured by callables passed before and after its own globals / closure cells
+    change: each call must inline it with the values of its own moment."""
+    out = []
+    for passed in ("inline", "def-local", "def-global"):
+        for scope in ("g", "l1"):
+            if passed == "def-global" and scope != "g":
+                continue
+            for lam, hs in (("lambda e: h(e.a)", [("G", [], "7", "value"), ("h", ["a"], "a + G", "def")]),
+                            ("lambda e: sum(e.jets.Select(lambda j: h(j.pt)))", [("G", [], "7", "value"), ("h", ["a"], "a * G", "doc")]),
+                            ("lambda e: h4(e.z)", [("G", [], "7", "value"), ("h2", ["a", "b"], "a - b + G", "def"), ("h4", ["a"], "h2(a, 1) + G", "def")])):
+                c = mk(lam, hs, 1, {"second-call"}, group="twice", scope=scope)
+                for v in c.vars:
+                    if v.name == "G":
+                        v.mid = "G = 70"
+                c.passed, c.twice = passed, True
+                out.append(c)
+    return out
+
+
 def enumerated(ctx):
     out = []
     maxsize = ctx.budget(4, 5)
@@ -284,7 +304,7 @@ def inlinable_left_by_name(case: Case, tree) -> list:
 
 
 def run(ctx):
-    cs = corpus() + structured(ctx)
+    cs = corpus() + second_call_cases() + structured(ctx)
     en = enumerated(ctx)
     cap = ctx.budget(3000, 60000)
     if len(en) > cap:
